@@ -1,6 +1,9 @@
 import BigtreeModel.Relation
 import BigtreeProofs.Lemmas.Heap
 import BigtreeProofs.Lemmas.Nested
+import BigtreeProofs.Lemmas.RelationBuild
+import BigtreeProofs.Lemmas.RelationTree
+import BigtreeProofs.Lemmas.RelationCheck
 /-!
 # C13 — relation, nested-dict and heap-list constructors build exactly the given edges
 -/
@@ -90,5 +93,104 @@ example : NDict.WF (.mk ['a'] [] [.mk ['b'] [] [], .mk ['c'] [] []]) := by
   simp [NDict.WF, NDict.WFL, NDict.name]
 
 example : (NDict.mk ['a'] [] [.mk ['b'] [] [], .mk ['b'] [] []]).toTree = .error .tree := by rfl
+
+/-! ## *_by_relation -/
+
+/-- `relToTree` rows that are ANY permutation of the edge list of a tree `T` (sibling names
+    pairwise different, names non-empty, the name of a non-leaf carried by no other node —
+    leaf names may repeat) are accepted, whatever `allow_duplicates` is:
+
+    * the root is the unique root candidate (`rootNames rows = [T.name]`, see `root_candidates`);
+    * the result has exactly the given edges (`edges` of the result is a permutation of the
+      rows, cells without value dropped) — so the fuel `rows.length + 1` sufficed;
+    * at every node of the result the children are the rows naming it as parent, in row order,
+      each carrying its own row's non-null cells (`ChildSpec`). -/
+theorem relation_exact (T : Tree) (hsu : SibUnique T) (hu : Rel.NonLeafUnique T)
+    (hne : ∀ b n, nodeAt b T = some n → n.name ≠ []) (rows : List Rel.Row)
+    (hperm : rows.Perm (Rel.edges T)) (hrows : rows ≠ []) (allowDup : Bool) :
+    Rel.rootNames rows = [T.name] ∧
+    ∃ cs, Rel.relToTree allowDup rows = .ok (.node 0 T.name [] cs) ∧
+      (Rel.edges (.node 0 T.name [] cs)).Perm (rows.map Rel.norm) ∧
+      ∀ a n, nodeAt a (.node 0 T.name [] cs) = some n → Rel.ChildSpec rows n :=
+  Rel.relToTree_tree T hsu hu hne rows hperm hrows allowDup
+
+/-- Whatever the input: if the constructor returns a tree, the children of every node are the
+    rows naming it as parent, in row order, with the row's non-null cells as attributes. -/
+theorem relation_children_in_row_order (allowDup : Bool) (rows : List Rel.Row) (t : Tree)
+    (h : Rel.relToTree allowDup rows = .ok t) :
+    ∀ a n, nodeAt a t = some n → Rel.ChildSpec rows n := by
+  unfold Rel.relToTree at h
+  split at h
+  · cases h
+  · split at h
+    · cases h
+    · split at h
+      · rename_i rootName _
+        simp only at h
+        split at h
+        · cases h
+        · cases hb : Rel.build rows (rows.length + 1) rootName with
+          | error e => rw [hb] at h; cases h
+          | ok cs =>
+            rw [hb] at h
+            simp only [Except.ok.injEq] at h
+            subst h
+            obtain ⟨s1, s2⟩ := Rel.build_spec rows _ _ cs hb
+            intro a n hn
+            cases a with
+            | nil => simp at hn; subst hn; exact s1
+            | cons k ks =>
+              rw [nodeAt_cons] at hn
+              simp only [Tree.children_node] at hn
+              cases hk : cs[k]? with
+              | none => rw [hk] at hn; cases hn
+              | some d => rw [hk] at hn; exact s2 d (List.mem_of_getElem? hk) ks n hn
+      · cases h
+
+/-- non-vacuity: `a(b(x), c(x, y))` — the leaf name `x` occurs twice -/
+def exT : Tree := .node 0 ['a'] []
+  [.node 1 ['b'] [] [.node 2 ['x'] [(['v'], .int 1)] []],
+   .node 3 ['c'] [] [.node 4 ['x'] [(['v'], .null)] [], .node 5 ['y'] [] []]]
+
+example : SibUnique exT := by simp [exT, SibUnique, SibUniqueL]
+example : Rel.NonLeafUnique exT := Rel.nonLeafUnique_of_check exT (by rfl)
+example : Rel.edges exT = [⟨['b'], some ['a'], []⟩, ⟨['c'], some ['a'], []⟩, ⟨['x'], some ['b'], [(['v'], .int 1)]⟩,
+    ⟨['x'], some ['c'], [(['v'], .null)]⟩, ⟨['y'], some ['c'], []⟩] := by rfl
+/-- the rows of `exT` in another order: children come out in ROW order (`c` before `b`, `y` before `x`) -/
+example : Rel.relToTree false [⟨['y'], some ['c'], []⟩, ⟨['x'], some ['c'], [(['v'], .null)]⟩, ⟨['c'], some ['a'], []⟩,
+    ⟨['x'], some ['b'], [(['v'], .int 1)]⟩, ⟨['b'], some ['a'], []⟩] =
+  .ok (.node 0 ['a'] [] [.node 0 ['c'] [] [.node 0 ['y'] [] [], .node 0 ['x'] [] []],
+                          .node 0 ['b'] [] [.node 0 ['x'] [(['v'], .int 1)] []]]) := by rfl
+
+/-- the root candidates are: children of rows without parent, and parents that are never a child;
+    each is listed once -/
+theorem root_candidates (rows : List Rel.Row) (x : Str) :
+    (x ∈ Rel.rootNames rows ↔ Rel.IsRootCand rows x) ∧ (Rel.rootNames rows).Nodup :=
+  ⟨Rel.mem_rootNames rows x, Rel.nodup_rootNames rows⟩
+
+/-- Zero or several possible roots ⇒ `ValueError`; a child named under two different parents
+    that is itself a parent ⇒ `ValueError` (with `allow_duplicates=False`). -/
+theorem relation_refused (rows : List Rel.Row) :
+    (∀ allowDup, (¬ ∃ x, ∀ y, Rel.IsRootCand rows y ↔ y = x) → Rel.relToTree allowDup rows = .error .value) ∧
+    ((∃ r1 ∈ rows, ∃ r2 ∈ rows, ∃ r3 ∈ rows, r1.child = r2.child ∧ r1.parent ≠ r2.parent ∧
+        r3.parent = some r1.child) → Rel.relToTree false rows = .error .value) := by
+  constructor
+  · intro allowDup h
+    apply Rel.refused_of_rootNames
+    intro x hx
+    apply h
+    refine ⟨x, fun y => ?_⟩
+    rw [← Rel.mem_rootNames, hx]
+    simp
+  · rintro ⟨r1, h1, r2, h2, r3, h3, hc, hp, hpar⟩
+    exact Rel.refused_of_dupChildren rows (Rel.dupChildren_of rows r1 r2 r3 h1 h2 h3 hc hp hpar)
+
+/-- two roots -/
+example : Rel.relToTree true [⟨['b'], some ['a'], []⟩, ⟨['d'], some ['c'], []⟩] = .error .value := by rfl
+/-- no root (a cycle) -/
+example : Rel.relToTree true [⟨['b'], some ['a'], []⟩, ⟨['a'], some ['b'], []⟩] = .error .value := by rfl
+/-- `x` is a parent and occurs under `a` and under `b` -/
+example : Rel.relToTree false [⟨['x'], some ['a'], []⟩, ⟨['b'], some ['a'], []⟩, ⟨['x'], some ['b'], []⟩,
+    ⟨['y'], some ['x'], []⟩] = .error .value := by rfl
 
 end C13
